@@ -313,6 +313,7 @@ func CheckC13(e *Env) (int, error) {
 	fired := map[string]int{}
 	var samples []interface{}
 	firstPairs := map[[2]int]bool{}
+	var od OrderedDigest
 	e.Logf("C13: %d histories (%d enumerated pair histories)", len(plans), pairs)
 	e.Parallel(len(plans), func(i int) {
 		hp := plans[i]
@@ -328,6 +329,7 @@ func CheckC13(e *Env) (int, error) {
 		byKind[kindOf[i]]++
 		totalOps += len(hp.Ops)
 		if res != nil {
+			od.Add(i, strDigest(mustJSON(res.Outcomes)+mustJSON(res.Altered)))
 			scribbles += res.Scribbles
 			reinspects += res.Reinspects
 			for _, rr := range res.Reads {
@@ -428,6 +430,7 @@ func CheckC13(e *Env) (int, error) {
 		"faults_fired":        fired,
 		"probes":              probesHit,
 		"raw_violations":      len(viols),
+		"outcome_digest":      od.String(),
 	}
 	if err := e.WriteEvidence("C13", "exploration", cov, []string{
 		"solo oracle: the call alone in a fresh process of the same (plain) build defines 'a function of its arguments alone'",
